@@ -142,6 +142,10 @@ def _b_events(args):
         tid = tid0 + t
         H, W = int(rng.integers(1, 6)), int(rng.integers(1, 6))
         kH, kW = int(rng.integers(1, H + 1)), int(rng.integers(1, W + 1))
+        if t % 4 == 3:
+            # images and kernels beyond the enumerated sizes (a fast path chosen by image or kernel SIZE must agree too)
+            H, W = int(rng.choice([7, 9, 12, 16, 19])), int(rng.choice([6, 8, 11, 17, 20]))
+            kH, kW = int(rng.integers(1, min(8, H + 1))), int(rng.integers(1, min(8, W + 1)))        # kernels no larger than the image
         if t % 3 == 0:
             psf = rng.integers(0, 4, (kH, kW)).astype(float)
             X = rng.integers(-4, 5, (H, W)).astype(float)
